@@ -4,8 +4,12 @@ import vlib
 
 PROOFS = ["C05/Refuted.vo", "C05/ProofsBase.vo", "C05/ProofsChol.vo", "C05/ProofsLdl.vo", "C05/ProofsHouse.vo", "C05/ProofsGivens.vo",
           "C05/ResidProofs.vo", "C05/ProofsHouse2.vo", "C05/ProofsBlock.vo", "C05/ProofsTrace.vo", "C05/ProofsHess.vo",
-          "C05/ProofsGS.vo", "C05/ProofsLdl2.vo", "C05/ProofsChol2.vo", "C05/ProofsTridiag.vo", "C05/ProofsBidiag.vo"]
+          "C05/ProofsGS.vo", "C05/ProofsLdl2.vo", "C05/ProofsChol2.vo", "C05/ProofsTridiag.vo", "C05/ProofsBidiag.vo", "C05/ProofsTridiag2.vo", "C05/ProofsOpts.vo", "C05/ProofsBand.vo"]
+# round 3: optional correspondence files of the extra streams (Float32 paths, re-derived step traces)
+EXTRA_STREAMS = [("cases32", "C05/Corr32", "case32", "correspondence C05.Corr32 (binary32 replay of the Float32/Real32 paths)"),
+                 ("tcases", "C05/CorrTrace", "tcase", "correspondence C05.CorrTrace (re-derived step trace of an iterative routine)")]
 TARGETS = ["Base/Num.vo", "Base/Corr.vo", "C05/Model.vo", "C05/Corr.vo", "C05/Resid.vo", "C05/Spec.vo", "C05/SpecTest.vo"] \
+          + [t + ".vo" for _, t, _, _ in EXTRA_STREAMS if os.path.exists(os.path.join(vlib.COQ, t + ".v"))] \
           + PROOFS + ["C05/Props.vo"]
 PROPS = ["C05/Props.v"]
 PARTIAL = ("Theorems (over R, all sizes) cover the direct routines: Cholesky (soundness and completeness), LDL, forced-PD LDL "
@@ -13,9 +17,9 @@ PARTIAL = ("Theorems (over R, all sizes) cover the direct routines: Cholesky (so
            "(= P M / M P), Givens rotation, Gram-Schmidt at HEAD (Q R = A unconditionally, R upper triangular, buffer "
            "independence, Q^T Q = I for independent columns) and the Hessenberg reduction (U orthogonal, U H U^T = A, H upper "
            "Hessenberg) and the bidiagonalisation at HEAD (U, V orthogonal, U B V^T = A, B upper bidiagonal). They are about the hand-written model coq/C05/Model.v, tied to the Go code by bit-exact replay on "
-           "primitive floats (Float64 fast path and Real64 generic path). Tridiagonalisation is modelled at HEAD and tied bit-exactly, but its "
-           "reduction theorem is not proved (only the guard of the fix: a reflection is applied iff the column is not yet "
-           "reduced; missing: the symmetric rank-2 update identity). The iterative routines (QR algorithm, SVD, eigensystem, msqrt, msqrtInv) have no "
+           "primitive floats (Float64 fast path and Real64 generic path). The tridiagonalisation at HEAD is proved as well (every n, every "
+           "symmetric A: U orthogonal, U T U^T = A, T symmetric tridiagonal; via the symmetric rank-2 update identity "
+           "A - nu w^T - w nu^T = P A P proved for every size). The iterative routines (QR algorithm, SVD, eigensystem, msqrt, msqrtInv) have no "
            "closed model: the trace-machine invariant (any sequence of valid Givens/reflector steps preserves U H U^T resp. "
            "U B V^T and orthogonality) is proved but NOT tied to the Go iteration (step parameters are not logged); every run "
            "is decided by the exact residual checker C05.Resid (Coq, integer arithmetic, soundness lemma proved) demanding the "
@@ -135,6 +139,13 @@ def run(ctx):
         return
     dmeta, draw, dbad = eval_stream(ctx, "cases")
     rmeta, rraw, rbad = eval_stream(ctx, "rcases")
+    for name, _, key, what in EXTRA_STREAMS:
+        if not os.path.exists(os.path.join(ctx.dir, name + ".meta.json")):
+            continue
+        _, xraw, xbad = eval_stream(ctx, name)
+        for i in xbad[:5]:
+            ctx.violation({key: xraw[i], "obligation": what}, False,
+                          "model and implementation disagree (%s): %s" % (name, json.dumps(xraw[i])[:300]))
     known = {}          # id -> (finding, count)
     unexplained = []    # (replay object, found_input, text)
 
@@ -203,13 +214,15 @@ def replay(ctx, path):
     if binary is None:
         print(blog)
         return 2
-    if "case" not in rp and "rcase" not in rp:
+    if "case" not in rp and "rcase" not in rp and "case32" not in rp and "tcase" not in rp:
         print("replay names a broken obligation, not an input: %s" % rp.get("obligation"))
         ok, failures = vlib.proof_stage(ctx, TARGETS, PROPS)
         return 0 if ok else 1
     vlib.sh([binary, "--replay", path, "--out", ctx.dir], env=vlib.go_env(), timeout=300)
     res = vlib.eval_shards(sorted(glob.glob(os.path.join(ctx.dir, "replay_*.v")) +
-                                  glob.glob(os.path.join(ctx.dir, "rreplay_*.v"))))
+                                  glob.glob(os.path.join(ctx.dir, "rreplay_*.v")) +
+                                  glob.glob(os.path.join(ctx.dir, "replay32_*.v")) +
+                                  glob.glob(os.path.join(ctx.dir, "treplay_*.v"))))
     agree = all(r["ok"] for r in res)
     direct, iters = [], []
     if rp.get("case"):
